@@ -267,3 +267,10 @@ func BoolToI64(b bool) int64 {
 	}
 	return 0
 }
+
+// Environment hooks of the sequentialised-concurrency harnesses (engine only; natively these
+// harnesses are replayed by dedicated tests).
+func SetNow(ns int64)                  {}
+func FireTimers() int                  { return 0 }
+func ArmedTimers() int                 { return 0 }
+func OnYield(f func(tag string) bool) {}
